@@ -93,6 +93,9 @@ type feedConn struct {
 }
 
 func (c *feedConn) Read(p []byte) (int, error) {
+	if len(p) == 0 {
+		return 0, nil // like a real net.Conn: an empty read returns at once
+	}
 	c.req <- len(p)
 	g := <-c.grants
 	if g.eof {
